@@ -15,8 +15,8 @@
 (* verdict clauses are evaluated on the recorded answers only:             *)
 (*   CachedEqualsRecomputed_*  : cached answer at the end = recomputation. *)
 (* A stale answer is attributed to a known deviation when the              *)
-(* corresponding update happened after the query was first asked           *)
-(* (`upd`), everything else is _Other.                                     *)
+(* corresponding update happened after one of the cache entries it is read *)
+(* from was filled (`upd`, Deps), everything else is _Other.               *)
 (* One phase per clause (TLC reports one violated invariant per state).    *)
 (***************************************************************************)
 EXTENDS TypeSystem, TLCExt, Json, IOUtils
@@ -25,7 +25,7 @@ Traces == ndJsonDeserialize(IOEnv.TRACE_FILE)
 
 VARIABLES tid, l, ph,
           prov,    \* provider of this trace
-          upd      \* asked top-level key -> kinds of updates that happened since it was first asked
+          upd      \* cache entry -> kinds of updates that happened since it entered the cache
 tvars == <<tid, l, ph, prov, upd, hier, extra, h, rel, gens, ret, memo, steps>>
 
 HistClauses == <<"CachedEqualsRecomputed_KnownNoClearOnAddEdge",
@@ -41,7 +41,11 @@ ObsAns(a) == Ans(a.b, a.n, ToSetOf(a.s))
 St == [h |-> h, reg |-> Reg, prov |-> prov]
 AllRoots == [i \in 1..NUser |-> [ub |-> {}, bb |-> "object"]]
 H0 == HOf(AllRoots, {})       \* constant: computed once for all traces
-Mark(kind) == [k \in DOMAIN upd |-> upd[k] \cup {kind}]
+\* upd follows the memo: new entries start empty, surviving entries get the update marked
+\* (a new entry inherits the history of the older entries its value was read from)
+Follow(m2, kinds) ==
+  [k \in DOMAIN m2 |-> IF k \in DOMAIN upd THEN upd[k] \cup kinds
+                        ELSE UNION {upd[d] : d \in Deps(St, memo, k)}]
 
 TInit == /\ tid \in 1..Len(Traces) /\ l = 0 /\ ph = NPh
          /\ prov = "G" /\ upd = [k \in {} |-> {}]
@@ -59,25 +63,24 @@ Consume(e) ==
          /\ extra' = extra \cup {<<e.x, e.y>>}
          /\ h' = HOf(hier, extra \cup {<<e.x, e.y>>})
          /\ memo' = MemoAfterAddEdge(memo)
-         /\ upd' = Mark("add_edge")
+         /\ upd' = Follow(MemoAfterAddEdge(memo), {"add_edge"})
          /\ UNCHANGED <<prov, gens, ret>>
     [] e.k = "add_gen" ->
          /\ gens' = gens \cup {e.g}
          /\ ret' = [g \in (DOMAIN ret) \cup {e.g} |-> IF g = e.g THEN e.ret ELSE ret[g]]
          /\ memo' = MemoAfterAddGenerator(memo)
-         /\ upd' = Mark("add_gen")
+         /\ upd' = Follow(MemoAfterAddGenerator(memo), {"add_gen"})
          /\ UNCHANGED <<prov, extra, h>>
     [] e.k = "update_ret" ->
          LET new == AddOrMakeUnion(ret[e.g], e.c) IN
            IF new = ret[e.g] THEN UNCHANGED <<prov, upd, extra, h, gens, ret, memo>>
            ELSE /\ ret' = [ret EXCEPT ![e.g] = new]
                 /\ memo' = MemoAfterUpdateReturnType(memo)
-                /\ upd' = Mark("update_ret")
+                /\ upd' = Follow(MemoAfterUpdateReturnType(memo), {"update_ret"})
                 /\ UNCHANGED <<prov, extra, h, gens>>
     [] e.k = "query" ->
          /\ memo' = AfterQuery(St, memo, e.key)
-         /\ upd' = IF e.key \in DOMAIN upd THEN upd
-                   ELSE [k \in (DOMAIN upd) \cup {e.key} |-> IF k = e.key THEN {} ELSE upd[k]]
+         /\ upd' = Follow(AfterQuery(St, memo, e.key), {})
          /\ UNCHANGED <<prov, extra, h, gens, ret>>
     [] e.k = "final" -> UNCHANGED <<prov, upd, extra, h, gens, ret, memo>>
 
@@ -93,8 +96,9 @@ TSpec == TInit /\ [][TNext]_tvars
 Final == ev.k = "final"
 Asked == {ev.asked[i] : i \in DOMAIN ev.asked}
 Stale(a) == a.cached # a.fresh
-EdgeSince(a) == "add_edge" \in upd[a.key]
-GenSince(a) == a.key.q = "offered" /\ "add_gen" \in upd[a.key]
+\* the cache entries the final answer is read from, and what happened since they were filled
+EdgeSince(a) == \E k \in Deps(St, memo, a.key) : "add_edge" \in upd[k]
+GenSince(a) == \E k \in Deps(St, memo, a.key) : k.q \in ProviderQueries /\ "add_gen" \in upd[k]
 
 CachedEqualsRecomputed_KnownNoClearOnAddEdge ==
   (At("CachedEqualsRecomputed_KnownNoClearOnAddEdge") /\ Final) =>
